@@ -50,6 +50,18 @@ class Tracer:
         except Exception:
             return None
 
+    def frame_names(self, depth=2, n=3):
+        """the n innermost pdb2pqr frames above the wrapper"""
+        out = []
+        f = sys._getframe(depth)
+        while f is not None and len(out) < n:
+            mod = f.f_globals.get("__name__", "")
+            if mod.startswith("pdb2pqr"):
+                slf = f.f_locals.get("self")
+                out.append(f"{type(slf).__name__}.{f.f_code.co_name}" if slf is not None else f"{mod.split('.')[-1]}.{f.f_code.co_name}")
+            f = f.f_back
+        return out
+
     def frame_name(self, depth=2):
         """innermost pdb2pqr frame (Class.method or function) above the wrapper"""
         f = sys._getframe(depth)
@@ -128,6 +140,8 @@ class Tracer:
             self._install_log()
         if "torsion" in groups:
             self._install_torsion()
+        if "placement" in groups:
+            self._install_placement()
 
     def _install_atoms(self):
         import pdb2pqr.aa as aa
@@ -141,8 +155,31 @@ class Tracer:
             def add_atom(res, atom, *xa, **xk):
                 r = orig(res, atom, *xa, **xk)
                 n = tr.aid(atom)
-                tr.emit(e="new", a=n, p=tr.qpos(atom), name=atom.name, res=_rid(res), fr=tr.frame_name(2),
-                        rc=type(res).__name__, hv=not _is_h(atom), rec=getattr(atom, "type", ""))
+                ev = dict(e="new", a=n, p=tr.qpos(atom), name=atom.name, res=_rid(res), fr=tr.frame_name(2),
+                          rc=type(res).__name__, hv=not _is_h(atom), rec=getattr(atom, "type", ""))
+                if getattr(tr, "placement", False):
+                    ev["frs"] = tr.frame_names(2, 4)
+                    ev["fit"] = getattr(tr, "last_fit", None)
+                    tr.last_fit = None
+                    if ev["fit"]:
+                        # which atoms' coordinates were handed to the superposition as the actual positions
+                        acts = []
+                        for cc in ev["fit"]["ref"]:
+                            nm = "?"
+                            for b in res.atoms:
+                                if b is not atom and (b.x, b.y, b.z) == cc:
+                                    nm = b.name
+                                    break
+                            else:
+                                pn, pc = getattr(res, "peptide_n", None), getattr(res, "peptide_c", None)
+                                if pn is not None and (pn.x, pn.y, pn.z) == cc:
+                                    nm = "N+1"
+                                elif pc is not None and (pc.x, pc.y, pc.z) == cc:
+                                    nm = "C-1"
+                            acts.append(nm)
+                        ev["fit"]["acts"] = acts
+                    ev["xyz"] = (atom.x, atom.y, atom.z)
+                tr.emit(**ev)
                 return r
             return add_atom
 
@@ -223,6 +260,99 @@ class Tracer:
         self._patch(cells.Cells, "get_near_cells", mk_near)
         self._patch(cells.Cells, "assign_cells", mk_assign)
 
+
+    @staticmethod
+    def peptide_neighbours(bio):
+        """independent of the peptide_c / peptide_n pointers: residue -> (C of a residue bonded to its N, N of a residue
+        bonded to its C), by distance (1.7 A, the limit update_bonds uses)"""
+        import pdb2pqr.aa as aa
+        cs, ns = [], []
+        for res in bio.residues:
+            if isinstance(res, aa.Amino):
+                for a in res.atoms:
+                    if a.name == "C":
+                        cs.append((res, a))
+                    elif a.name == "N":
+                        ns.append((res, a))
+        out = {}
+        for res, n in ns:
+            for r2, c in cs:
+                if r2 is not res and (n.x - c.x) ** 2 + (n.y - c.y) ** 2 + (n.z - c.z) ** 2 <= 1.7 ** 2:
+                    out.setdefault(id(res), [None, None])[0] = c
+                    out.setdefault(id(r2), [None, None])[1] = n
+        return out
+
+    def _install_placement(self):
+        """remember the arguments of the last quatfit.find_coordinates call (consumed by the next atom creation)"""
+        import pdb2pqr.quatfit as quatfit
+
+        tr = self
+        tr.placement = True
+        tr.last_fit = None
+
+        def mk(orig):
+            def find_coordinates(numpoints, refcoords, defcoords, defatomcoords, *xa, **xk):
+                r = orig(numpoints, refcoords, defcoords, defatomcoords, *xa, **xk)
+                try:
+                    tr.last_fit = {"n": int(numpoints), "def": [tuple(float(v) for v in c) for c in defcoords][:4],
+                                   "ref": [tuple(float(v) for v in c) for c in refcoords][:4]}
+                except Exception:
+                    tr.last_fit = {"n": -1, "def": [], "ref": []}
+                return r
+            return find_coordinates
+        self._patch(quatfit, "find_coordinates", mk)
+        import pdb2pqr.biomolecule as bm
+
+        tr.addh_snapshots = []
+
+        def mk_addh(orig):
+            def add_hydrogens(bio, *xa, **xk):
+                try:
+                    import pdb2pqr.aa as aa
+                    import pdb2pqr.na as na
+                    pn = tr.peptide_neighbours(bio)
+                    for res in bio.residues:
+                        if not isinstance(res, (aa.Amino, na.Nucleic)):
+                            continue
+                        ref = res.reference
+                        tr.addh_snapshots.append({
+                            "geo_cminus": pn.get(id(res), [None, None])[0] is not None,
+                            "geo_nplus": pn.get(id(res), [None, None])[1] is not None,
+                            "res": _rid(res), "order": list(ref.map), "bonds": {n: list(ref.map[n].bonds) for n in ref.map},
+                            "present": [a.name for a in res.atoms], "nplus": getattr(res, "peptide_n", None) is not None,
+                            "cminus": getattr(res, "peptide_c", None) is not None, "amino": hasattr(res, "rebuild_tetrahedral"),
+                            "skip": ["HG"] if (isinstance(res, aa.CYS) and res.ss_bonded) else [],
+                            "refcoords": {n: (ref.map[n].x, ref.map[n].y, ref.map[n].z) for n in ref.map}})
+                except Exception as e:      # observation only
+                    tr.unobservable.append(f"add_hydrogens snapshot: {type(e).__name__}")
+                return orig(bio, *xa, **xk)
+            return add_hydrogens
+        self._patch(bm.Biomolecule, "add_hydrogens", mk_addh)
+        tr.repair_snapshots = []
+
+        def mk_repair(orig):
+            def repair_heavy(bio, *xa, **xk):
+                try:
+                    import pdb2pqr.aa as aa
+                    import pdb2pqr.na as na
+                    pn = tr.peptide_neighbours(bio)
+                    for res in bio.residues:
+                        if not isinstance(res, (aa.Amino, na.Nucleic)) or not res.missing:
+                            continue
+                        ref = res.reference
+                        tr.repair_snapshots.append({
+                            "geo_cminus": pn.get(id(res), [None, None])[0] is not None,
+                            "geo_nplus": pn.get(id(res), [None, None])[1] is not None,
+                            "res": _rid(res), "order": list(ref.map), "bonds": {n: list(ref.map[n].bonds) for n in ref.map},
+                            "present": [a.name for a in res.atoms if ref.has_atom(a.name)], "missing": list(res.missing),
+                            "nplus": getattr(res, "peptide_n", None) is not None,
+                            "cminus": getattr(res, "peptide_c", None) is not None, "amino": hasattr(res, "rebuild_tetrahedral"),
+                            "skip": [], "refcoords": {n: (ref.map[n].x, ref.map[n].y, ref.map[n].z) for n in ref.map}})
+                except Exception as e:      # observation only
+                    tr.unobservable.append(f"repair_heavy snapshot: {type(e).__name__}")
+                return orig(bio, *xa, **xk)
+            return repair_heavy
+        self._patch(bm.Biomolecule, "repair_heavy", mk_repair)
 
     def _install_torsion(self):
         """before/after coordinates of the residue for every Debump.set_dihedral_angle / Residue.rotate_tetrahedral"""
